@@ -1317,6 +1317,60 @@ def ctapi_run(case, ctx):
             ctx.fail("stale-error/ctrait-api", "%r left the error indicator set: %r" % (case, e))
 
 
+# ----------------------------------------------------------------------------- delegation cycles
+def cycles_gen(tier, shard, nshards):
+    n = 0
+    for length in (1, 2, 3, 4):
+        for kind in ("del", "proto"):
+            for op in ("get", "set", "del", "hasattr", "trait_get", "validate"):
+                for listen in (False, True):
+                    if n % nshards == shard:
+                        yield {"length": length, "kind": kind, "op": op, "listen": listen}
+                    n += 1
+
+
+def cycles_run(case, ctx):
+    """A deferring attribute whose chain of delegates is a CYCLE through `length` distinct objects: every access ends in a
+    Python exception (RecursionError / DelegationError / TraitError / AttributeError), never in a crash, and the objects are
+    usable afterwards."""
+    from traits.api import DelegatesTo, PrototypedFrom, DelegationError
+    D = DelegatesTo if case["kind"] == "del" else PrototypedFrom
+    N = type("CyN", (HasTraits,), {"peer": Instance(HasTraits), "x": D("peer"), "other": Int(1)})
+    nodes = [N() for _ in range(case["length"])]
+    for i, n in enumerate(nodes):
+        n.peer = nodes[(i + 1) % len(nodes)]
+    a = nodes[0]
+    if case["listen"]:
+        a.on_trait_change(lambda: None, "other")
+    if len(nodes) > 1:
+        ctx.nontrivial()
+    op = case["op"]
+    try:
+        if op == "get":
+            a.x
+        elif op == "set":
+            a.x = 3
+        elif op == "del":
+            del a.x
+        elif op == "hasattr":
+            hasattr(a, "x")
+        elif op == "trait_get":
+            a.trait_get("x")
+        else:
+            a.validate_trait("x", 3)
+        ctx.label("returned")
+    except (RecursionError, DelegationError, TraitError, AttributeError) as e:
+        ctx.label("raised:" + type(e).__name__)
+    except Exception as e:
+        ctx.fail("cycle/exception-class", "%r: %s raised %r" % (case, op, e))
+    # still usable
+    a.other = 5
+    if a.other != 5:
+        ctx.fail("cycle/unusable", "%r: the object is unusable after the failed access" % (case,))
+    for n in nodes:
+        n.peer = None
+
+
 def stages(tier):
     out = [reuse_stage(m, s, d, tier) for m, s, d in REUSE]
     out.append({"name": "reentrant", "kind": "hyp", "strategy": reentrant_strategy, "run": reentrant_run, "flavour": "asan",
@@ -1333,6 +1387,8 @@ def stages(tier):
     out.append({"name": "refgrid", "kind": "enum", "batch": True, "gen": refgrid_gen, "run": refgrid_run, "flavour": "plain",
                 "shards": 16, "exhaustive": True})
     out.append({"name": "ctrait-api", "kind": "enum", "gen": ctapi_gen, "run": ctapi_run, "flavour": "asan", "shards": 8,
+                "exhaustive": True})
+    out.append({"name": "cycles", "kind": "enum", "gen": cycles_gen, "run": cycles_run, "flavour": "plain", "shards": 4,
                 "exhaustive": True})
     out.append({"name": "deffault", "kind": "enum", "gen": deffault_gen, "run": deffault_run, "flavour": "plain", "shards": 4,
                 "exhaustive": True})
